@@ -24,7 +24,7 @@ from ..simfs import Plan, SimFS
 from ..snap import integrity, snapshot
 from . import common
 
-EXTRA_OPS = {"write", "read", "write_coll", "read_coll", "twin"}
+EXTRA_OPS = {"write", "read", "write_coll", "read_coll", "twin", "big_roundtrip"}
 COLL_FAMILIES = [["run:1", "run_1"], ["a|b", "a?b", "a_b"], ["x.y", "x*y", "x_y"], ["A", "a"], ["1", "01"], ["a b", "a_b"]]
 COLL_NAMES = ["n0", "n1", "run:1", "run_1", "a|b", "a?b", "a b", "a_b", "x.y", "x*y", "A", "a", "é", "1", "01"]
 EXPECTED_PROBES = ["write_overwrites_longer_file", "write_failed_in_last_flush", "read_fault_fired",
@@ -90,6 +90,21 @@ def json_safe(v):
     if isinstance(v, dict):
         return all(isinstance(k, str) and json_safe(x) for k, x in v.items())
     return False
+
+
+def str_cast_faithful(labs):
+    """does str() identify exactly the labels that are equal?  Every *spelling* counts: 4 and 4.0
+    are one node but two strings; 1 and "1" are two nodes but one string."""
+    sp = list({(type(x).__name__, repr(x)): x for x in labs}.values())
+    for i, x in enumerate(sp):
+        for y in sp[i + 1:]:
+            try:
+                same = bool(x == y)
+            except Exception:
+                same = False
+            if same != (str(x) == str(y)):
+                return False
+    return True
 
 
 def label_type(ids):
@@ -228,6 +243,11 @@ def next_record(sim):
         return None
     x = g.r.random()
     io = gen_io(sim)
+    if g.r.random() < 0.0015:
+        # a file with (just) more than 10**3 / 10**4 records: size thresholds of writers and readers
+        return {"uid": g.next_uid(), "op": "big_roundtrip", "fmt": g.r.choice(["edgelist", "edgelist", "bipartite", "hif", "json"]),
+                "n": g.r.choice([1001, 10001, 10007, 20011]), "delimiter": g.r.choice([" ", ",", "\t"]),
+                "argseed": g.r.randrange(1 << 30), "io": {"wchunk": g.r.choice([None, 4096, 65536]), "rchunk": g.r.choice([None, 4096])}}
     if x < 0.5:
         name = g.r.choice(list(w.actors))
         m = w.actors[name].model
@@ -259,10 +279,9 @@ def next_record(sim):
                 src = st.get("src_model")
                 if src is not None:
                     labs = list(src.nodes) + [x for e in src.edges for x in src.all_members(e)]
-                    # (every *spelling* counts: 4 and 4.0 are one node but two strings)
-                    if len({str(x) for x in labs}) == len(set(labs)) and g.r.random() < 0.8:
+                    if str_cast_faithful(labs) and g.r.random() < 0.8:
                         params["nodetype"] = "str"
-                    if len({str(x) for x in src.edges}) == len(src.edges) and g.r.random() < 0.8:
+                    if str_cast_faithful(list(src.edges)) and g.r.random() < 0.8:
                         params["edgetype"] = "str"
             if fmt == "bipartite" and g.r.random() < 0.25:
                 # dual=True reads the first column as edges: the casts swap with the columns
@@ -317,6 +336,20 @@ def do_write(sim, rec):
     fmt, path = rec["fmt"], sim.fs.path(rec["path"])
     m = act.model
     if not admissible(fmt, m) or getattr(act, "sc_dirty", False):
+        w.stats["write_skipped_outside_domain"] += 1
+        return rec["actor"]
+    def _spellings(sut):
+        out = list(sut.nodes) + list(sut.edges)
+        for e in sut.edges:
+            mm = sut.edges.dimembers(e) if act.kind == "DH" else (sut.edges.members(e),)
+            for part in mm:
+                out += list(part)
+        return out
+
+    if fmt in ("hif", "json") and any(type(x).__module__ == "numpy" for x in _spellings(act.sut)):
+        # numpy integer labels (equal to the model's ints; they come out of matrix / dataframe
+        # conversions, or are one spelling of a node inside a member set) are not
+        # JSON-representable: outside the domain of the JSON formats
         w.stats["write_skipped_outside_domain"] += 1
         return rec["actor"]
     params = rec["params"]
@@ -578,8 +611,76 @@ def do_read_coll(sim, rec):
     return None
 
 
+def do_big_roundtrip(sim, rec):
+    """a self-contained write + read of a hypergraph with n edges (integer labels, two or three
+    members each), outside the world of modelled actors: what is read back must list the same
+    member sets in the same order (under the same IDs where the format carries IDs)"""
+    w = sim.world
+    xgi = sim.xgi
+    fmt, n, delim = rec["fmt"], rec["n"], rec["delimiter"]
+    r = random.Random(rec["argseed"])
+    nn = max(5, n // 3)
+    edges = []
+    for i in range(n):
+        a = r.randrange(nn)
+        e = {a, (a + 1 + r.randrange(3)) % nn}
+        if r.random() < 0.4:
+            e.add(r.randrange(nn))
+        edges.append(sorted(e))
+    with warnings.catch_warnings():
+        warnings.simplefilter("ignore")
+        H = xgi.Hypergraph(edges)
+    path = sim.fs.path("big_" + fmt)
+    if fmt == "edgelist":
+        wr = lambda: xgi.write_edgelist(H, path, delimiter=delim)
+        rd = lambda: xgi.read_edgelist(path, delimiter=delim, nodetype=int)
+    elif fmt == "bipartite":
+        wr = lambda: xgi.write_bipartite_edgelist(H, path, delimiter=delim)
+        rd = lambda: xgi.read_bipartite_edgelist(path, delimiter=delim, nodetype=int, edgetype=int)
+    elif fmt == "hif":
+        wr = lambda: xgi.write_hif(H, path)
+        rd = lambda: xgi.read_hif(path)
+    else:
+        wr = lambda: xgi.write_json(H, path)
+        rd = lambda: xgi.read_json(path, nodetype=int, edgetype=int)
+    fake = dict(rec, op="big_roundtrip_" + fmt)
+    w.stats["op:big_roundtrip." + fmt] += 1
+    _, exc, _ = run_io(sim, rec["io"], wr)
+    if exc is not None:
+        w.find({"C11"}, "write_failed", fake, "H", f"{n} edges: {type(exc).__name__}: {exc}")
+        return None
+    got, exc, _ = run_io(sim, rec["io"], rd)
+    if exc is not None:
+        w.find({"C11"}, "acknowledged_write_unreadable", fake, "H", f"{n} edges: {type(exc).__name__}: {exc}")
+        return None
+    try:
+        if fmt == "edgelist":
+            back = [sorted(m) for m in got.edges.members()]
+            want = edges
+        else:
+            back = {e: sorted(m) for e, m in got.edges.members(dtype=dict).items()}
+            want = dict(enumerate(edges))
+        if back != want:
+            if isinstance(want, dict):
+                bad = [k for k in want if back.get(k) != want[k]][:3] + [k for k in back if k not in want][:3]
+                detail = f"{len(back)} edges read, {len(want)} written; first differences at IDs {bad!r}"
+            else:
+                k = next((i for i, (x, y) in enumerate(zip(back, want)) if x != y), min(len(back), len(want)))
+                detail = f"{len(back)} edges read, {len(want)} written; first difference at position {k}: " \
+                         f"{back[k] if k < len(back) else None!r} vs {want[k] if k < len(want) else None!r}"
+            w.find({"C11"}, "large_file_round_trip_differs", fake, "H", f"{fmt}, {n} edges: {detail}")
+    finally:
+        try:
+            os.unlink(path)
+        except OSError:
+            pass
+    return None
+
+
 def exec_extra(sim, rec):
     op = rec["op"]
+    if op == "big_roundtrip":
+        return do_big_roundtrip(sim, rec)
     if op == "twin":
         return common.do_twin(sim, rec)
     if op == "write":
